@@ -769,6 +769,41 @@ def _model_raw_script(script):
     return res
 
 
+def _stub_script(script):
+    """The script once more through mweb.call - the entry the OTHER harnesses use, with XML handed over as element
+    trees and answers taken before serialisation - to compare its status classes with the raw answers."""
+    import re
+    import xml.etree.ElementTree as ET_
+    mweb.fresh_world({"a.ics": b"xa", "b.ics": b"xb"}, {"c.vcf": b"v1"}, cfg="file")
+    app = mweb.make_app()
+    out = []
+    for rq in script:
+        headers = []
+        for k, v in rq.get("h", []):
+            m = re.match(r"^(.*)\$ETAG\(([^)]*)\)(.*)$", v)
+            if m:
+                cur = mweb.call(app, "HEAD", m.group(2), wsgi=True)
+                et = cur.header("ETag") if cur.status_class == "2xx" else '"none"'
+                v = m.group(1) + et + m.group(3)
+            headers.append((k, v))
+        kw = {}
+        if "xml" in rq:
+            kw = {"xml": ET_.fromstring(rq["xml"]), "content_type": rq.get("ct", "text/xml")}
+        elif "tok" in rq:
+            kw = {"body": rq["tok"].encode("latin-1"), "content_type": rq.get("ct")}
+        r = mweb.call(app, rq["m"], rq["p"], headers=headers, wsgi=True, **kw)
+        out.append(r.status_class)
+    return out
+
+
+def _class_of(code):
+    from xv.env import mhttp
+
+    class _R:
+        status = code
+    return mhttp.status_class(_R)
+
+
 def body_real_responses(r1, r2):
     """FULL answers (status code, ETag / Location / Allow headers, the XML body as a tree, member bodies) of
     three-request scripts - two requests chosen by the solver from a menu of %d (writes with every kind of refusal,
@@ -800,6 +835,13 @@ def body_real_responses(r1, r2):
                     ctx.LAST_EXC = "request %d of %r\n real: %r\nmodel: %r" % (
                         k, [(x["m"], x["p"]) for x in script], a, b)
                     return (False, "response-differs")
+            # ... and the stubbed entry point of the other harnesses classifies every answer as the raw one
+            stub = _stub_script(script)
+            raw = [_class_of(rr["st"]) for rr in real]
+            if stub != raw:
+                ctx.LAST_EXC = "status classes through mweb.call %r != raw answers %r for %r" % (
+                    stub, raw, [(x["m"], x["p"]) for x in script])
+                return (False, "stub-differs")
         return (True, "same:" + q1["m"])
 body_real_responses.__doc__ = body_real_responses.__doc__ % len(RR_REQS)
 
